@@ -18,7 +18,7 @@ except Exception:  # pragma: no cover
 
 META = {
     "technique": "Lean 4 calculus/linear algebra (implicit-function adjoint identity solved by the Picard iteration, implicit derivative of the additive-term roots with the code's hand-written backward compared against it, identity-preserving parameter packing) + correspondence of the custom backward formulas + finite-difference lattice over parameter names x backward modes x outputs on the real code",
-    "level_text": "Theorems: if (1 - A) is invertible the gradient v^T (1-A)^-1 B equals u^T B for the fixed point u = v + A^T u of the Picard map used by the implicit SCF backward; for a differentiable root rho(h, D) of r(rho, D) = h: d rho/d h = 1/d_rho r and d rho/d D = -d_D r/d_rho r, and the backward formulas of additive_term_rho1/2 are compared with these (code model = true derivative after the repair; the reciprocal form is refuted by a witness); a learned parameter receives a gradient iff the packed map keeps the caller's object (no copy interposed). Tied to the code by comparing the real custom backward passes with the compiled model and by central finite differences of Etot, Hf, gap, HOMO energy and charges with respect to every learnable parameter name, for leaf and non-leaf tensors, scf_backward in {0,1,2}, and parameters that are callables of the geometry.",
+    "level_text": "Theorems: if (1 - A) is invertible the gradient v^T (1-A)^-1 B equals u^T B for the fixed point u = v + A^T u of the Picard map used by the implicit SCF backward; for a differentiable root rho(h, D) of r(rho, D) = h: d rho/d h = 1/d_rho r and d rho/d D = -d_D r/d_rho r, and the backward formulas of additive_term_rho1/2 are compared with these (code model = true derivative after the repair; the reciprocal form is refuted by a witness); a learned parameter receives a gradient iff the packed map keeps the caller's object (no copy interposed). Tied to the code by comparing the real custom backward passes with the compiled model and by central finite differences of Etot, Hf, gap, HOMO energy and charges with respect to every learnable parameter name, for leaf and non-leaf tensors, scf_backward in {0,1,2}, and parameters that are callables of the geometry. Translator tie (regenerated every run): start values, loop body, trip count, final expression and the hand-written backward of additive_term_rho1/rho2 are translated statement by statement; the backward is proved equal to the implicit-function derivative (the pre-repair reciprocal form is a different term), the forward to five secant steps on the residual functions (RootTie).",
     "level_note": "Trusted: Lean kernel; harness; FD tolerance 2e-4 relative + 2e-6 absolute. Partial: autograd graph semantics (what is saved/detached) are exhibited by the probes and modelled only through the 'partials w.r.t. direct inputs' hypothesis of the adjoint theorem; Hessian symmetry is probed (thorough), Schwarz's theorem is not re-proved.",
     "design_ref": "DESIGN.md section 5 C07",
 }
@@ -299,7 +299,13 @@ def corr_rho(ctx: Ctx, drv):
 
 
 def run(ctx: Ctx):
+    from ..translate import gen as _gen
+    _gen.regenerate(ctx, ["RootGen"])
     leanproj.check_theorems(ctx, MODULE, THEOREMS)
+    from .registry import THEOREMS_ROOTTIE
+    # translator tie: the hand-written backward of the additive terms, as it stands in the source, is the implicit-function derivative; the forward is
+    # five secant steps on the residual functions from the translated start values
+    leanproj.check_theorems(ctx, "PyseqmVerif.Properties.RootTie", THEOREMS_ROOTTIE)
     drv = leanproj.Driver()
     try:
         try:
